@@ -173,7 +173,7 @@ def build_frame(pose_list, frame_idx, n_nodes, scores=None, vid=None, as_pred=No
     return lf
 
 
-def build_labels(frames, n_nodes, two_videos=False, media=False, stale=False):
+def build_labels(frames, n_nodes, two_videos=False, media=False, stale=False, separate=False, sparse=False, order_seed=None):
     """frames: list of dict(gt=[pose], pr=[pose], sc=[int], haspr=bool).  Returns
     (labels_gt, labels_pr, index) with index: id(instance) -> ('g'|'p', frame number 1-based, index 1-based)."""
     import sleap_io as sio
@@ -181,20 +181,30 @@ def build_labels(frames, n_nodes, two_videos=False, media=False, stale=False):
     sk = skeleton(n_nodes)
     gl, pl, index = [], [], {}
     vids = [video(), video2()] if two_videos else ([media_video()] if media else [video()])
+    # separate: the predictions come from another file - their Video objects are equal to the ground truth's (same file,
+    # backend, dataset) but not the same objects, and listed in the other order
+    import copy
+    pvids = [copy.deepcopy(v) for v in vids] if separate else list(vids)
     for f, fr in enumerate(frames):
         # two_videos: frames alternate between the two embedded videos and SHARE frame numbers (0, 0, 1, 1, ...)
         vid, fidx = (vids[f % 2], f // 2) if two_videos else (vids[0], f)
+        pvid = pvids[vids.index(vid)]
+        if sparse:
+            fidx = 3 * fidx + 5          # frame numbers are labels, not positions
         lf = build_frame(fr["gt"], fidx, n_nodes, vid=vid, as_pred=fr.get("gt_as_pred"), extra_pred=fr.get("gt_extra_pred"), stale=stale)
         for k, inst in enumerate(lf.instances[:_COUNTED.get(id(lf), len(lf.instances))]):
             index[id(inst)] = ("g", f + 1, k + 1)
         gl.append(lf)
         if fr["haspr"]:
-            lp = build_frame(fr["pr"], fidx, n_nodes, scores=fr["sc"], vid=vid, stale=stale)
+            lp = build_frame(fr["pr"], fidx, n_nodes, scores=fr["sc"], vid=pvid, stale=stale)
             for k, inst in enumerate(lp.instances):
                 index[id(inst)] = ("p", f + 1, k + 1)
             pl.append(lp)
     keep = gl + pl  # keep the instances alive while ids are used
-    return sio.Labels(gl, videos=list(vids), skeletons=[sk]), sio.Labels(pl, videos=list(vids), skeletons=[sk]), index, keep
+    if order_seed is not None:
+        import random
+        random.Random(order_seed).shuffle(pl)      # the prediction file lists its frames in another order
+    return sio.Labels(gl, videos=list(vids), skeletons=[sk]), sio.Labels(pl, videos=(pvids[::-1] if separate else list(pvids)), skeletons=[sk]), index, keep
 
 
 MATCH_THRESHOLDS = None
@@ -248,7 +258,8 @@ def observe_eval(case, opts=None):
     with warnings.catch_warnings():
         warnings.simplefilter("ignore")
         try:
-            lg, lp, index, keep = build_labels(frames, n_nodes, two_videos=bool(opts.get("two_videos")), media=bool(opts.get("media_video")), stale=bool(opts.get("stale_hidden")))
+            lg, lp, index, keep = build_labels(frames, n_nodes, two_videos=bool(opts.get("two_videos")), media=bool(opts.get("media_video")), stale=bool(opts.get("stale_hidden")),
+                                                  separate=bool(opts.get("separate_files")), sparse=bool(opts.get("sparse_frames")), order_seed=opts.get("pr_order"))
             ev = E.Evaluator(lg, lp, oks_stddev=stddev, oks_scale=scale, match_threshold=thr, user_labels_only=bool(opts.get("user_labels_only", True)))
             import copy
             m1 = copy.deepcopy(ev.evaluate())
